@@ -59,6 +59,11 @@ func (c *C14) variants() map[string][]c14Variant {
 		{"recipient", "minter", sth(func(e *mhubtypes.SendToHubEvent) { e.CosmosReceiver = u2 })},
 		{"height", "minter", sth(func(e *mhubtypes.SendToHubEvent) { e.ExternalHeight = 101 })},
 		{"txhash", "minter", sth(func(e *mhubtypes.SendToHubEvent) { e.TxHash = "0xbb" })},
+		// the value nothing and the text "0" (= the byte 48): amount 0 / 48
+		{"amount(zero)", "minter", sth(func(e *mhubtypes.SendToHubEvent) { e.Amount = sdk.NewInt(0) })},
+		{"amount(48)", "minter", sth(func(e *mhubtypes.SendToHubEvent) { e.Amount = sdk.NewInt(48) })},
+		{"txhash(empty)", "minter", sth(func(e *mhubtypes.SendToHubEvent) { e.TxHash = "" })},
+		{"txhash(\"0\")", "minter", sth(func(e *mhubtypes.SendToHubEvent) { e.TxHash = "0" })},
 		// differences confined to the high bits of an amount (a fixed-width encoding would drop them)
 		{"amount(+2^64)", "minter", sth(func(e *mhubtypes.SendToHubEvent) { e.Amount = e.Amount.Add(pow2(64)) })},
 		{"amount(+2^128)", "minter", sth(func(e *mhubtypes.SendToHubEvent) { e.Amount = e.Amount.Add(pow2(128)) })},
@@ -133,6 +138,10 @@ func (c *C14) variants() map[string][]c14Variant {
 		// optional fields shifted across their boundary: fee 31000 / no payer  vs  no fee / payer "31000"
 		{"feepaid 31000, empty feepayer", "ethereum", bee(func(e *mhubtypes.BatchExecutedEvent) { e.FeePaid = sdk.NewInt(31000); e.FeePayer = "" })},
 		{"feepaid absent, feepayer \"31000\"", "ethereum", bee(func(e *mhubtypes.BatchExecutedEvent) { e.FeePaid = sdk.Int{}; e.FeePayer = "31000" })},
+		{"txhash(empty)", "ethereum", bee(func(e *mhubtypes.BatchExecutedEvent) { e.TxHash = "" })},
+		{"txhash(\"0\")", "ethereum", bee(func(e *mhubtypes.BatchExecutedEvent) { e.TxHash = "0" })},
+		{"feepayer(empty)", "ethereum", bee(func(e *mhubtypes.BatchExecutedEvent) { e.FeePayer = "" })},
+		{"feepayer(\"0\")", "ethereum", bee(func(e *mhubtypes.BatchExecutedEvent) { e.FeePayer = "0" })},
 		{"feepaid(negative mirror)", "ethereum", bee(func(e *mhubtypes.BatchExecutedEvent) { e.FeePaid = e.FeePaid.Neg() })},
 		{"feepaid(+2^64)", "ethereum", bee(func(e *mhubtypes.BatchExecutedEvent) { e.FeePaid = e.FeePaid.Add(pow2(64)) })},
 		{"feepayer(upper-case hex)", "ethereum", bee(func(e *mhubtypes.BatchExecutedEvent) { e.FeePayer = "0x" + strings.ToUpper(r1[2:]) })},
@@ -192,7 +201,7 @@ func (c *C14) variants() map[string][]c14Variant {
 	for typ, l := range out {
 		var keep []c14Variant
 		for _, v := range l {
-			if strings.Contains(v.Name, "case") || strings.Contains(v.Name, "prefix") || strings.Contains(v.Name, "+2^") || strings.Contains(v.Name, "negative") {
+			if strings.Contains(v.Name, "case") || strings.Contains(v.Name, "prefix") || strings.Contains(v.Name, "+2^") || strings.Contains(v.Name, "negative") || strings.Contains(v.Name, "empty") || strings.Contains(v.Name, "\"0\"") || strings.Contains(v.Name, "zero") || strings.Contains(v.Name, "(48)") {
 				if err := v.Ev.Validate(mhubtypes.ChainID(v.Chain)); err != nil {
 					c.inadmissible = append(c.inadmissible, typ+"."+v.Name)
 					continue
